@@ -568,7 +568,9 @@ class FunctionAnalysis:
         kws = {k.arg: self.expr(k.value, env) for k in e.keywords}
         star_kw = kws.pop(None, None)
         # method call on a local object
-        if isinstance(e.func, ast.Attribute) and (d is None or d.split('.')[0] in env):
+        if isinstance(e.func, ast.Attribute) and (d is None or d.split('.')[0] in env or
+                                                  (len(d.split('.')) == 2 and self.an.mutable_global(self.mod, d.split('.')[0]))):
+            # (also a method of a module-level mutable object, e.g. TABLE.get(key, default): its result is part of module state)
             recv = self.expr(e.func.value, env)
             m = e.func.attr
             if m in MUTATING_METHODS:
@@ -717,6 +719,9 @@ class FunctionAnalysis:
             orig = set()
             deeper = None
             for o in av.orig:
+                if not o.startswith('P:'):
+                    orig.add(o)         # a module-level object (or fresh) is the same object at every nesting depth of the callee's value
+                    continue
                 b = lookup(o)
                 # an origin at nesting depth d of the callee's parameter denotes the object d levels inside the argument
                 x = b
